@@ -5,6 +5,7 @@ ArlLayout_MC checks record sizes and the packing invariants on every
 configuration and emits the records; they are serialised by the fixed-width
 text encoder below and read with arlpackedbit; Arl_Trace validates variable
 lists, level lists, times and every unpacked field."""
+import json
 import os
 import shutil
 
@@ -42,7 +43,8 @@ def serialise(recs):
 def case_read(arg):
     import warnings
     warnings.simplefilter('ignore')
-    tid, item = arg
+    tid, item = arg[:2]
+    decoy = arg[2] if len(arg) > 2 else None
     cfg = item['cfg']
     from PseudoNetCDF.noaafiles._arl import arlpackedbit
     tmp = scratch('arl')
@@ -58,6 +60,18 @@ def case_read(arg):
             fo.write(data)
         try:
             f = arlpackedbit(path)
+            if decoy is not None:
+                # another ARL file (other levels and variables) is opened
+                # and read before this one is read: readers do not share state
+                path2 = os.path.join(tmp, 'g.arl')
+                with open(path2, 'wb') as fo:
+                    fo.write(serialise(decoy['recs']))
+                try:
+                    g = arlpackedbit(path2)
+                    for k in list(g.variables.keys()):
+                        np.asarray(g.variables[k][...])
+                except Exception:
+                    pass
             for k in tr['dims']:
                 tr['dims'][k] = int(len(f.dimensions[k])) \
                     if k in f.dimensions else -1
@@ -154,7 +168,13 @@ def run_arl_files(out, tier):
                              if isinstance(p, dict) and 'recs' in p])
     if not items:
         raise Machinery('ArlLayout_MC emitted nothing')
-    args = [(700000 + i, it) for i, it in enumerate(items)]
+    small = sorted(items, key=lambda it: len(json.dumps(it['recs'])))[:12]
+    args = []
+    for i, it in enumerate(items):
+        dec = [d for d in small if d['cfg'].get('levv') != it['cfg'].get(
+            'levv')]
+        args.append((700000 + i, it, dec[i % len(dec)]) if dec and i % 2 == 0
+                    else (700000 + i, it))
     res = run_cases(case_read, args, timeout=300, per_child=4, chunksize=1)
     for t in res:
         if '_crash' in t or '_hang' in t:
